@@ -120,6 +120,7 @@ type Exec struct {
 	NontrivPaths int
 	jsonDepth    int
 	fmtDepth     int
+	Digests      map[string]string // zz.Digest(label, text): concrete texts computed by a self-test harness
 }
 
 // FuncCalls lists every function whose SSA body was executed, with the number of activations.
@@ -728,6 +729,7 @@ func (ex *Exec) worker(id int) (*Exec, error) {
 	w.KnownModels = map[string]map[string]uint64{}
 	w.IntrHit = map[string]int64{}
 	w.PathEnds = map[string]int{}
+	w.Digests = map[string]string{}
 	w.Samples = nil
 	w.raceSeen = nil
 	w.NontrivPaths = 0
